@@ -99,3 +99,27 @@ def register_masks(reg):
                      ('data[self.coverage_mask] = self.fill_value',
                       'data[self.coverage_mask] = 0.0')] if cspec == img else [],
         ))
+    register_filter(reg)
+
+
+def register_filter(reg):
+    """Background2D._selective_filter: the median window of mesh (i, j) is the filter window centred
+    on it, clipped to the mesh array -- it always contains (i, j) itself (so it is never empty,
+    whatever the filter size and wherever the mesh lies) and never reaches outside the array."""
+    reg.add(Contract(
+        target=f'{F}._selective_filter', props=['C11'], kind='method', tag='window',
+        block=('yidx0', 'xidx1'),
+        params={'data': ('arr', 2, 'real', 'nonempty'), 'i': 'nat', 'j': 'nat', 'yfs': 'pos',
+                'xfs': 'pos', 'hyfs': 'nat', 'hxfs': 'nat'},
+        requires=['i < data.shape[0]', 'j < data.shape[1]', 'hyfs == yfs // 2', 'hxfs == xfs // 2'],
+        ensures=[('inside-the-mesh-array',
+                  '0 <= yidx0 and yidx1 <= data.shape[0] and 0 <= xidx0 and xidx1 <= data.shape[1]'),
+                 ('contains-the-mesh-itself', 'yidx0 <= i and i < yidx1 and xidx0 <= j and j < xidx1'),
+                 ('the-centred-window-clipped',
+                  'yidx0 == max(i - yfs // 2, 0) and yidx1 == min(i - yfs // 2 + yfs, data.shape[0]) '
+                  'and xidx0 == max(j - xfs // 2, 0) and xidx1 == min(j - xfs // 2 + xfs, data.shape[1])')],
+        mutants=[('yidx1 = min(i - hyfs + yfs, data.shape[0])', 'yidx1 = min(i - hyfs + yfs, data.shape[0] - 1)'),
+                 ('xidx0 = max(j - hxfs, 0)', 'xidx0 = max(j - hxfs, 1)'),
+                 ('xidx1 = min(j - hxfs + xfs, data.shape[1])', 'xidx1 = min(j - hxfs + xfs, data.shape[0])'),
+                 ('yidx0 = max(i - hyfs, 0)', 'yidx0 = max(i + hyfs, 0)')],
+    ))
